@@ -10,6 +10,7 @@ import (
 	"net"
 	"os"
 	"strings"
+	"time"
 
 	"github.com/c2FmZQ/ech"
 
@@ -299,6 +300,50 @@ func (s *Sess) Write(b []byte) IORes {
 	}
 	s.m("write "+core.Hex(b), want, "Conn.Write")
 	return res
+}
+
+// WriteWhileReadPending is the proxy situation: one goroutine is already blocked in Conn.Read on the
+// client socket when the backend's record passes through Conn.Write on another goroutine, and only
+// then the client's next bytes arrive. Linearised, this is "write, feed, read", and that is what
+// the model is asked; the implementation must answer the same.
+func (s *Sess) WriteWhileReadPending(n int, rec []byte, chunks [][]byte, fin string) (IORes, IORes) {
+	s.Fake.SetBlock(true)
+	var rd IORes
+	buf := make([]byte, n)
+	done := make(chan struct{})
+	go func() {
+		defer close(done)
+		defer func() {
+			if r := recover(); r != nil {
+				rd.Err = "panic"
+				rd.Panic = fmt.Sprint(r)
+			}
+		}()
+		k, err := s.Conn.Read(buf)
+		rd.N = k
+		rd.Data = buf[:k]
+		rd.Err = ErrClass(err)
+	}()
+	for i := 0; i < 20000 && s.Fake.WaitingReaders() == 0; i++ {
+		select {
+		case <-done:
+			i = 20000
+		default:
+			time.Sleep(50 * time.Microsecond)
+		}
+	}
+	wr := s.Write(rec)
+	s.m(fmt.Sprintf("feed %s %s", chunksStr(chunks), fin), "ok", "")
+	s.Fake.Append(chunks, fin)
+	<-done
+	rd.Out = s.outDelta()
+	rd.Closed = s.Fake.Closed
+	want := fmt.Sprintf("data=%s err=%s out=%s closed=%d", core.Hex(rd.Data), rd.Err, core.Hex(rd.Out), b01(rd.Closed))
+	if rd.Err == "panic" {
+		want = "panic " + rd.Panic
+	}
+	s.m(fmt.Sprintf("read %d", n), want, "Conn.Read that was already pending when the backend record was written")
+	return wr, rd
 }
 
 // Sig helper
